@@ -101,6 +101,9 @@ def export(g):
     out['plain_rules'] = [(r.origin.name, tuple((s.is_term, s.name) for s in r.expansion)) for r in rules]
     out['prio'] = [r.options.priority or 0 for r in allrules]
     out['start_state'] = sid[id(a.lr0_start_states['start'])]
+    # lark's own NULLABLE / FIRST (grammar_analysis.calculate_sets), for the completeness certificate
+    out['nullable'] = sorted(nid[s.name] for s in a.NULLABLE if not s.is_term and s.name in nid)
+    out['first'] = sorted([nid[s.name], sorted(tid[t.name] for t in fs if t.name in tid)] for s, fs in a.FIRST.items() if not s.is_term and s.name in nid)
     # ---- lark's own decision
     try:
         a.compute_lalr1_states()
@@ -121,7 +124,7 @@ def export(g):
     return out
 
 
-def ftable_case(ex, toks, fuel=400):
+def ftable_case(ex, toks, fuel=400, ann=None):
     """driver request: lark's own table + a token string"""
     T = len(ex['terms'])
     shifts, reduces, gotos = [], [], []
@@ -131,9 +134,12 @@ def ftable_case(ex, toks, fuel=400):
                 (shifts if key < T else gotos).append([q, key if key < T else key - T, arg])
             else:
                 reduces.append([q, key, arg])
-    return {'op': 'lr_parse', 'rules': ex['rules'], 'items': ex['items'], 'shifts': shifts, 'reduces': reduces, 'gotos': gotos,
+    case = {'op': 'lr_parse', 'rules': ex['rules'], 'items': ex['items'], 'shifts': shifts, 'reduces': reduces, 'gotos': gotos,
             'start': ex['start_state'], 'final': ex['final_state'], 's0': ex['nts'].index('start'), 'eof': ex['terms'].index('$END'),
             'toks': toks, 'fuel': fuel, 'terms': list(range(T))}
+    if ann is not None:
+        case.update(ann=ann, nuser=len(ex['plain_rules']), nullable=ex['nullable'], first=ex['first'])
+    return case
 
 
 def sample_tokens(rng, ex, max_depth=6):
